@@ -38,6 +38,10 @@ def real_parse(text, keep, chains, ignore):
     from propka.input import get_atom_lines_from_pdb, conformation_sorter
     try:
         pairs = list(get_atom_lines_from_pdb(io.StringIO(text), ignore_residues=ignore, keep_protons=keep, chains=chains))
+    except TypeError as e:
+        if "argument" in str(e):
+            return "api:the parser is no longer called this way (%s)" % e      # the correspondence cannot be established
+        raise
     except ValueError:
         return "err:ValueError"
     except IndexError:
